@@ -40,6 +40,14 @@ mutual
     | not (e : Expr)
     | abort (hasMsg : Bool) (msg : Expr)
     | ret (e : Expr)
+    -- `del(<query>, compact: c)` and `exists(<query>)` take a *query*, not a value: the three query
+    -- shapes are separate constructors (`del.rs`, `exists.rs`)
+    | delExt (isMeta : Bool) (p : Path) (hasCompact : Bool) (compact : Expr)
+    | delVar (name : String) (p : Path) (hasCompact : Bool) (compact : Expr)
+    | delExpr (e : Expr) (p : Path) (hasCompact : Bool) (compact : Expr)
+    | existsExt (isMeta : Bool) (p : Path)
+    | existsVar (name : String) (p : Path)
+    | existsExpr (e : Expr) (p : Path)
     | call (name : String) (spanStart spanEnd : Nat) (args : Args) (hasClosure : Bool)
         (cvars : List String) (cbody : Exprs)
   inductive Exprs where
